@@ -52,6 +52,14 @@ func TestC09(t *testing.T) {
 			h.Intents = append(h.Intents, sim.BridgeIntents()...)
 			h.Focus = []types.Address{types.BridgeContract, types.LiquidityContract}
 		}
+		if c.Weighted("c09.ecoWorld", 2, 1) == 1 {
+			c.Class("ecosystem-world")
+			if n, err := sim.EcosystemScript(h); err != nil {
+				c.Note("ecosystem script stopped: %v", err)
+			} else {
+				c.R.Count("ecosystem_script_calls_accepted", n)
+			}
+		}
 		seen := map[types.Hash]bool{}
 		refunds, applied, straddle, nonDefault := 0, 0, 0, 0
 		checkReceives := func() {
@@ -74,6 +82,17 @@ func TestC09(t *testing.T) {
 						continue
 					}
 					what := fmt.Sprintf("call %v to %s (from %v, amount %v %v, data 0x%x)", s.Hash, sim.ContractNames[ct], s.Address, s.Amount, s.TokenStandard, s.Data)
+					mname := "?"
+					if ab, ok := sim.Contracts[ct]; ok && len(s.Data) >= 4 {
+						if m, err := ab.MethodById(s.Data[:4]); err == nil {
+							mname = m.Name
+						}
+					}
+					if merr != nil {
+						c.R.Count("refunded/"+sim.ContractNames[ct]+"."+mname, 1)
+					} else {
+						c.R.Count("applied/"+sim.ContractNames[ct]+"."+mname, 1)
+					}
 					if merr != nil {
 						refunds++
 						c.Class("failed-at-receive-time")
